@@ -66,6 +66,16 @@ def configs(tier, seed):
                     #  stock-driven quotients costs half a minute per configuration)
                     for ia, npts in ((("middle", 3), ("start", 1)) if kind == "idsm" else ()):
                         out.append(dict(h="history", op=kind + lt + "q", key=f"history/{kind}/{lt}/{ia}{npts}/" + ">".join(seq), kind=kind, lt=lt, seq=seq, n=3, grid="uneven", inflow_at=ia, npts=npts))
+    # set_prms called again with the values the model already holds (a loop that passes every parameter on every round)
+    for kind in KINDS:
+        for lt in REAL:
+            if kind != "idsm" and lt == "FixedLifetime":
+                continue
+            for sq in (["compute", "prms", "prms_again", "compute"], ["read_sf", "prms", "prms_again", "compute"], ["compute", "prms_again", "prms", "prms_again", "compute"],
+                       ["prms_again", "compute", "prms", "compute"]):
+                if kind != "idsm" and len(sq) > 4:
+                    continue
+                out.append(dict(h="history", op=kind + lt + "r", key=f"history/{kind}/{lt}/repeat/" + ">".join(sq), kind=kind, lt=lt, seq=sq, n=3))
     for lt in REAL:
         for order in ("ab", "ba"):
             out.append(dict(h="definition_system", op=lt, key=f"definition_system/{lt}/set_prms_order={order}", kind="idsm", lt=lt, n=3, order=order))
@@ -76,6 +86,9 @@ def configs(tier, seed):
                 continue
             for via in ("caller", "stock_a"):
                 out.append(dict(h="shared_lifetime", op=lt + kb, key=f"shared_lifetime/{lt}/idsm+{kb}/set_prms_via={via}", kind="idsm", kb=kb, lt=lt, via=via, n=3))
+                if kb == "sdsm_lapack" and via == "caller" and lt in ("NormalLifetime", "WeibullLifetime"):
+                    # two stock-driven models of the same solver on one lifetime object
+                    out.append(dict(h="shared_lifetime", op=lt + kb + "2", key=f"shared_lifetime/{lt}/{kb}+{kb}/set_prms_via={via}", kind="idsm", ka=kb, kb=kb, lt=lt, via=via, n=3))
     for lt in REAL:
         for iters in ([2, 3] if tier == "quick" else [2, 3, 4]):
             out.append(dict(h="system_loop", op=lt, key=f"system_loop/{lt}/iters={iters}", kind="idsm", lt=lt, iters=iters, n=3))
@@ -160,15 +173,19 @@ def run(cfg, w):
         L = getattr(lm, lt)(dims=dims, **P0)
         kb = cfg["kb"]
         dA, dB = w.arr("da", shape), w.arr("db", shape)
-        A = dsm.build_stock("idsm", dims, lifetime=L, inflow=dA, name="a")
+        ka = cfg.get("ka", "idsm")
+        A = dsm.build_stock(ka, dims, lifetime=L, **({"inflow": dA} if ka == "idsm" else {"stock": dA}), name="a")
         B = dsm.build_stock(kb, dims, lifetime=L, **({"inflow": dB} if kb == "idsm" else {"stock": dB}), name="b")
         A.compute()
-        _compare(w, "a_first", _results(A), _fresh("idsm", dims, lt, P0, dA))
+        _compare(w, "a_first", _results(A), _fresh(ka, dims, lt, P0, dA))
+        if ka != "idsm":
+            B.compute()
+            _compare(w, "b_first", _results(B), _fresh(kb, dims, lt, P0, dB))
         (L if cfg["via"] == "caller" else A.lifetime_model).set_prms(**P1)
         B.compute()
         _compare(w, "b_after_new_parameters", _results(B), _fresh(kb, dims, lt, P1, dB))
         A.compute()
-        _compare(w, "a_after_new_parameters", _results(A), _fresh("idsm", dims, lt, P1, dA))
+        _compare(w, "a_after_new_parameters", _results(A), _fresh(ka, dims, lt, P1, dA))
         return
     if cfg["h"] == "history":
         kinds_cycle = {"scalar": ["scalar", "array"], "array": ["array", "scalar"], "arrays": ["array"]}.get(cfg.get("first"), ["scalar"])
@@ -191,6 +208,8 @@ def run(cfg, w):
             elif op == "prms":
                 prm = _prms(w, lt, f"p{i + 1}", next_kind(), dims)
                 st.lifetime_model.set_prms(**prm)
+            elif op == "prms_again":
+                st.lifetime_model.set_prms(**prm)  # the very values it holds
             elif op == "read_sf":
                 st.lifetime_model.sf
             elif op == "read_pdf":
